@@ -98,6 +98,14 @@ def run(ctx, impl_only=False):
     # items at the same position that are == but of different types: a type change by the definition
     pairs += [([1, 'x'], [True, 'x']), ([1.0, 2], [1, 2]), ([{1, 2}, 'x'], [frozenset({1, 2}), 'x']), ((1, [True, 2.0]), (1, [1, 2])), ({'k': [{'a': 1}]}, {'k': [{'a': True}]}),
               ([0, 0.0, False], [False, 0, 0.0]), (((1, 2), [3]), ((1.0, 2), [3])), ([[1], [1]], [[1.0], [True]]), ({'a': (0, 'z')}, {'a': (False, 'z')})]
+    # integers beyond the 53 bits of a float that differ by one, and numbers next to them
+    for (x, y) in [(2 ** 53, 2 ** 53 + 1), (10 ** 18, 10 ** 18 + 1), (-2 ** 60, -2 ** 60 - 1), (9007199254740993, 9007199254740992), (1234567890123456789, 1234567890123456788), (2 ** 70, 2 ** 70 + 2)]:
+        for w in (lambda v: v, lambda v: {'id': v, 'k': 1}, lambda v: [0, v], lambda v: ('z', {'n': [v]})):
+            pairs.append((w(x), w(y)))
+    # one set object at several places of t1 (and of t2), edited differently at each place
+    s1 = {1, 2}; s2 = frozenset({'a', 'b'}); s3 = {1, 2, 3}
+    pairs += [([s1, s1], [{1}, {2}]), ({'p': s1, 'q': s1}, {'p': {1, 2, 3}, 'q': {1, 2, 4}}), ([s2, [s2]], [frozenset({'a'}), [frozenset({'b', 'c'})]]), ((s3, {'k': s3}, s3), ({1}, {'k': {2}}, {3})),
+              ([s1, s1, s1], [{1, 2, 5}, {1, 2}, {7}])]
     # byte strings that differ only in what a lenient decoder drops or replaces: a leading byte order mark, undecodable bytes, a NUL, line ends
     BOM = b'\xef\xbb\xbf'
     for (x, y) in [(BOM + b'abc', b'abc'), (b'abc', BOM + b'abc'), (BOM + b'l1\nl2', b'l1\nl2'), (BOM + b'l1\nl2', BOM + b'l1\nl3'), (BOM, b''), (b'a\xffb', b'a\xfeb'), (b'a\xff', b'a'),
